@@ -35,7 +35,7 @@ from ..futil import funsor, Tensor, Number, Variable, Bint, Real, Reals, ops
 from funsor.terms import Unary, Binary, Tuple, Funsor
 from funsor.cnf import Contraction
 from funsor.compiler import compile_funsor, lower
-from funsor.interpretations import lazy, reflect
+from funsor.interpretations import lazy, reflect, eager
 from funsor.interpreter import anf as real_anf, reinterpret
 from funsor.ops.program import OpProgram, make_tuple
 from funsor.ops.tracer import trace_function, is_variable
@@ -118,15 +118,18 @@ def gen_spec(rng, tier, batched=False, names=None):
                 scal.append(len(nodes) - 1)
                 nodes.append(["un", partner, len(nodes) - 1])          # op . inverse, directly
         elif r < 0.9:
-            op = rng.choice(EXACT_BIN + EXACT_BIN + OTHER_BIN)
+            op = rng.choice(EXACT_BIN + EXACT_BIN + OTHER_BIN + ["logaddexp"])
             a, b = pick(), pick()
             if rng.random() < 0.15:
                 b = a                                  # x*x: the same child twice
             nodes.append(["bin", op, a, b])
         else:
-            op = rng.choice(["add", "mul", "max", "min"])
+            op = rng.choice(["add", "mul", "max", "min", "logaddexp", "logaddexp", "sample"])
             k = rng.choice([2, 3, 4])
-            nodes.append(["contr", op, [pick() for _ in range(k)]])
+            terms = [pick() for _ in range(k)]
+            if rng.random() < 0.4:
+                terms[-1] = terms[0]                   # the same cons-hashed operand twice
+            nodes.append(["contr", op, terms])
         scal.append(len(nodes) - 1)
     # tuples on top
     r = rng.random()
@@ -143,7 +146,13 @@ def gen_spec(rng, tier, batched=False, names=None):
             nodes.append(["tuple", elems])
             tup.append(len(nodes) - 1)
         root = tup[-1]
-    interp = rng.choice(["reflect", "reflect", "lazy"])
+    # logaddexp / sample are float-only ops (numpy's finfo rejects integer arrays): keep them away from specs with
+    # integer inputs or integer Number constants
+    if any(nd[0] == "var" and nd[2] == "bint" for nd in nodes) or any(nd[0] == "num" and isinstance(nd[1], int) for nd in nodes):
+        for nd in nodes:
+            if nd[0] in ("bin", "contr") and nd[1] in ("logaddexp", "sample"):
+                nd[1] = "max"
+    interp = rng.choice(["reflect", "reflect", "lazy", "eager"])
     return {"nodes": nodes, "root": root, "interp": interp, "n": n, "wild": trans and rng.random() < 0.5}
 
 
@@ -178,7 +187,7 @@ def np_data(spec, data):
 
 def build(spec):
     """spec -> (funsor, [funsor per node])."""
-    interp = {"reflect": reflect, "lazy": lazy}[spec["interp"]]
+    interp = {"reflect": reflect, "lazy": lazy, "eager": eager}[spec["interp"]]
     built = []
     with interp:
         for nd in spec["nodes"]:
@@ -210,8 +219,15 @@ def build(spec):
 NP_UN = {"neg": np.negative, "abs": np.abs, "exp": np.exp, "tanh": np.tanh, "log1p": np.log1p,
          "sigmoid": lambda x: 1.0 / (1.0 + np.exp(-x)), "log": np.log, "atanh": np.arctanh,
          "reciprocal": np.reciprocal, "sqrt": np.sqrt}
+def _intop(f):
+    return lambda a, b: f(np.asarray(a).astype(np.int64), np.asarray(b).astype(np.int64)).astype(np.float64)
+
+
 NP_BIN = {"add": np.add, "sub": np.subtract, "mul": np.multiply, "max": np.maximum, "min": np.minimum,
-          "truediv": np.true_divide}
+          "truediv": np.true_divide, "logaddexp": np.logaddexp, "sample": np.logaddexp,
+          "and_": _intop(np.bitwise_and), "or_": _intop(np.bitwise_or), "xor": _intop(np.bitwise_xor)}
+ASSOC_REAL = ["add", "mul", "max", "min", "logaddexp", "sample"]
+ASSOC_INT = ["add", "mul", "max", "min", "and_", "or_", "xor", "sample"]
 
 
 def spec_eval(spec, npd):
@@ -428,13 +444,13 @@ from funsor.terms import Variable, Number, Unary, Binary, Tuple
 from funsor.tensor import Tensor
 from funsor.cnf import Contraction
 from funsor.domains import Real, Reals, Bint
-from funsor.interpretations import reflect, lazy
+from funsor.interpretations import reflect, lazy, eager
 from funsor.compiler import compile_funsor
 spec = json.loads({spec!r})
 data = json.loads({data!r})
 def build(spec):
     b = []
-    with {{"reflect": reflect, "lazy": lazy}}[spec["interp"]]:
+    with {{"reflect": reflect, "lazy": lazy, "eager": eager}}[spec["interp"]]:
         for nd in spec["nodes"]:
             k = nd[0]
             if k == "var": f = Variable(nd[1], Real if nd[2] == "real" else (Reals[nd[3]] if nd[2] == "reals" else Bint[nd[3]]))
@@ -667,7 +683,7 @@ def check_case(ctx, spec, data, use_driver=True, stream="clean"):
     wit = {"spec": spec, "data": data, "stream": stream}
     try:
         expr, built = build(spec)
-    except (NotImplementedError, ValueError, TypeError, AssertionError) as e:
+    except (NotImplementedError, ValueError, TypeError, AssertionError, ArithmeticError) as e:
         ctx.count("skip:build-" + type(e).__name__)
         return False
     npd_all = np_data(spec, data)
@@ -680,7 +696,8 @@ def check_case(ctx, spec, data, use_driver=True, stream="clean"):
     has_trans = any(spec["nodes"][i][0] == "un" and spec["nodes"][i][1] not in EXACT_UN for i in reach)
     # exact comparison only where float arithmetic is exact whatever the evaluation order (dyadic data under
     # add/sub/neg/abs/max/min); eager funsor may evaluate x/y as x*reciprocal(y) and reassociate products
-    inexact = has_trans or any(spec["nodes"][i][0] in ("bin", "contr") and spec["nodes"][i][1] in ("mul", "truediv")
+    inexact = has_trans or any(spec["nodes"][i][0] in ("bin", "contr")
+                               and spec["nodes"][i][1] in ("mul", "truediv", "logaddexp", "sample")
                                for i in reach)
     tol = 1e-11 if inexact else 0.0
     batched = rk("btensor")
@@ -778,6 +795,11 @@ def check_case(ctx, spec, data, use_driver=True, stream="clean"):
                 if nm == "as_code" and isinstance(e, (ArithmeticError, ValueError)) and "math domain" in (str(e) + "math domain" * isinstance(e, ArithmeticError)):
                     # a 0-d ndarray constant is printed as a python float: math.log1p(-1.0) raises where numpy gives -inf
                     ctx.count("as_code:python-float-arithmetic-raises")
+                    continue
+                if (nm == "as_code" and isinstance(e, NameError)
+                        and any(np.ndim(c) == 0 and not np.isfinite(np.asarray(c, dtype=np.float64)) for c in program.constants)):
+                    # a non-finite constant (folded by the eager interpretation) is printed as `nan` / `inf`
+                    ctx.count("as_code:declined-nonfinite-constant(NameError)")
                     continue
                 ctx.fail("input", f"C18.{nm}-raises", witness=wit, got=repr(e), expected=jsonable(expected),
                          python=snippet(nm, spec, data))
@@ -1021,7 +1043,7 @@ import funsor, funsor.ops as ops
 funsor.set_backend("numpy")
 from funsor.terms import Variable, Number, Unary, Binary, Tuple
 from funsor.domains import Real, Reals
-from funsor.interpretations import reflect, lazy
+from funsor.interpretations import reflect, lazy, eager
 from funsor.compiler import compile_funsor
 pspec = json.loads({spec!r})
 data = {{k: np.array(v, dtype=np.float64) for k, v in json.loads({data!r}).items()}}
@@ -1325,6 +1347,69 @@ def inverse_stream(ctx, use_driver=True):
         if any(f.witness is not None for f in ctx.failures) or ctx.infra_errors:
             return
 
+
+# ---------------------------------------------------------------------------------------------
+# associative ops with REPEATED identical operands (Contraction terms are a multiset: x (+) x is not x unless
+# the op is idempotent) — every associative op funsor has, as explicit Contractions and as Binary chains that
+# the default interpretation normalises to Contractions
+# ---------------------------------------------------------------------------------------------
+
+ASSOC_DATA_REAL = {"x": [0.5, -1.0, 2.0], "y": [-0.25, 3.0, 1.5], "z": 0.75}
+ASSOC_DATA_INT = [{"b": 1, "c": 0, "i": 2}, {"b": 1, "c": 1, "i": 1}, {"b": 0, "c": 1, "i": 0}]
+
+
+def assoc_specs():
+    out = []
+    Vr = lambda nm, n_=3: ["var", nm, "reals" if n_ else "real", n_]
+    Vi = lambda nm, k: ["var", nm, "bint", k]
+    for op in ASSOC_REAL:
+        base = [Vr("x"), Vr("y"), Vr("z", 0), ["bin", "mul", 0, 1], ["bin", "sub", 3, 2]]      # 3 = x*y, 4 = x*y - z
+        forms = {
+            "x.x": [["contr", op, [0, 0]]],
+            "x.x.x": [["contr", op, [0, 0, 0]]],
+            "x.y.x": [["contr", op, [0, 1, 0]]],
+            "t.y.t": [["contr", op, [3, 1, 3]]],
+            "t.t": [["contr", op, [4, 4]]],
+            "nested": [["contr", op, [3, 1]], ["contr", op, [5, 3]]],
+            "tuple": [["contr", op, [0, 0]], ["contr", op, [5, 5, 1]], ["tuple", [5, 6, 0]]],
+            "chain x.x": [["bin", op, 0, 0]],
+            "chain (x.y).x": [["bin", op, 0, 1], ["bin", op, 5, 0]],
+            "chain (t.y).t": [["bin", op, 3, 1], ["bin", op, 5, 3]],
+            "chain x.x.x": [["bin", op, 0, 0], ["bin", op, 5, 0]],
+        }
+        for label, extra in forms.items():
+            nodes = base + extra
+            for interp in (("reflect", "eager") if label.startswith("chain") else ("reflect", "lazy", "eager")):
+                out.append((f"{op}:{label}", {"nodes": nodes, "root": len(nodes) - 1, "interp": interp, "n": 3},
+                            [ASSOC_DATA_REAL]))
+    for op in ASSOC_INT:
+        for k in (2, 3):
+            base = [Vi("b", k), Vi("c", k), Vi("i", 3)]
+            forms = {
+                "b.b": [["contr", op, [0, 0]]],
+                "b.c.b": [["contr", op, [0, 1, 0]]],
+                "b.b.b": [["contr", op, [0, 0, 0]]],
+                "chain b.b": [["bin", op, 0, 0]],
+                "chain (b.c).b": [["bin", op, 0, 1], ["bin", op, 3, 0]],
+                "chain (b.c).(b.c)": [["bin", op, 0, 1], ["bin", op, 3, 3]],
+                "chain mixed": [["bin", op, 0, 2], ["bin", op, 3, 0], ["tuple", [4, 3]]],
+            }
+            for label, extra in forms.items():
+                nodes = base + extra
+                for interp in (("reflect", "eager") if label.startswith("chain") else ("reflect", "eager")):
+                    out.append((f"{op}:{label}:Bint[{k}]", {"nodes": nodes, "root": len(nodes) - 1, "interp": interp, "n": 0},
+                                [{kk: min(v, k - 1) if kk != "i" else v for kk, v in d.items()} for d in ASSOC_DATA_INT]))
+    return out
+
+
+def assoc_stream(ctx, use_driver=True):
+    for label, spec, datas in assoc_specs():
+        for data in datas:
+            if check_case(ctx, spec, dict(data), use_driver=use_driver, stream="assoc:" + label):
+                ctx.count("assoc-repeated-operand:" + label.split(":")[0])
+            if any(f.witness is not None for f in ctx.failures) or ctx.infra_errors:
+                return
+
 # ---------------------------------------------------------------------------------------------
 # tracer
 # ---------------------------------------------------------------------------------------------
@@ -1575,7 +1660,7 @@ from funsor.terms import Variable, Number, Unary, Binary, Tuple
 from funsor.tensor import Tensor
 from funsor.cnf import Contraction
 from funsor.domains import Real, Reals, Bint
-from funsor.interpretations import reflect, lazy
+from funsor.interpretations import reflect, lazy, eager
 from funsor.compiler import compile_funsor
 from funsor.ops.tracer import trace_function
 spec = json.loads({spec!r})
@@ -1583,7 +1668,7 @@ steps = json.loads({steps!r})
 mode = {mode!r}
 def build(spec):
     b = []
-    with {{"reflect": reflect, "lazy": lazy}}[spec["interp"]]:
+    with {{"reflect": reflect, "lazy": lazy, "eager": eager}}[spec["interp"]]:
         for nd in spec["nodes"]:
             k = nd[0]
             if k == "var": f = Variable(nd[1], Real if nd[2] == "real" else (Reals[nd[3]] if nd[2] == "reals" else Bint[nd[3]]))
@@ -1894,6 +1979,8 @@ def correspond(ctx):
         if ctx.failures or ctx.infra_errors:
             break
     if not (ctx.failures or ctx.infra_errors):
+        assoc_stream(ctx)
+    if not (ctx.failures or ctx.infra_errors):
         history_stream(ctx)
     if not (ctx.failures or ctx.infra_errors):
         inverse_stream(ctx)
@@ -1931,6 +2018,9 @@ def search(ctx, broken):
         check_trace(ctx, gen_trace_spec(rng, "thorough"), use_driver=False)
         if have():
             return
+    assoc_stream(ctx, use_driver=False)
+    if have():
+        return
     history_stream(ctx)
     if have():
         return
